@@ -104,14 +104,28 @@ func (r *responseWriter) Write(b []byte) (int, error) {
 	return r.writer.Write(b)
 }
 
+// Flush sends the header, if it has not been sent yet, and any buffered data to the client.
+// It does not finish the response: the handler may go on writing.
 func (r *responseWriter) Flush() {
+	if nil == r.writer {
+		// finished
+		return
+	}
 	if !r.wroteHeader {
 		r.WriteHeader(http.StatusOK)
 	}
-	_ = r.Close()
+	_ = r.writer.Flush()
 }
 
+// Close finishes the response: terminates a chunked body, flushes, decides whether the
+// connection stays open and releases the buffer. Calling it again is a no-op.
 func (r *responseWriter) Close() (err error) {
+	if nil == r.writer {
+		return nil
+	}
+	if !r.wroteHeader {
+		r.WriteHeader(http.StatusOK)
+	}
 
 	if nil != r.chunkWriter {
 		err = r.chunkWriter.Close()
